@@ -77,11 +77,13 @@ def run(ctx):
                 cases.append(("png", v, box, b, None))
                 cases.append(("pil", v, box, b, colour_specs[0]))
                 cases.append(("pil", v, box, b, rnd.choice(colour_specs[1:])))
+    cases += [("pil", 2, 3, 1, cs) for cs in colour_specs]      # same canvas size, every colour pair in turn (state kept between renderings would show)
+    cases += [("png", 40, 1, 0, None), ("pil", 40, 2, 1, colour_specs[0]), ("png", 33, 2, 4, None)]      # the largest symbols
     log(f"{len(reqs)} pixel boxes; {len(cases)} image cases")
     reuse = qrcode.QRCode()
     mreq, mexp, sreq, smeta = [], [], [], []
     for i, (fac, v, box, b, cols) in enumerate(cases):
-        data = gens.payload(rnd, rnd.choice(["lower", "digits", "bytes"]), rnd.randrange(1, 10))
+        data = gens.payload(rnd, rnd.choice(["lower", "digits", "bytes"]), rnd.randrange(1, 10) if v < 30 else 900)
         if i % 3 == 0:
             q = reuse; q.clear(); q.version = v; q.border = b; q.box_size = box
         else:
